@@ -426,6 +426,12 @@ func (w *World) logWrites(i int) {
 }
 
 func (w *World) violate(prop, clause, sig, format string, a ...any) {
+	// a check only ever reports its own property
+	o := w.sc.Oracles
+	on := map[string]bool{"C02": o.C02, "C03": o.C03 || w.sc.Closure, "C04": o.C04, "C11": o.C11, "C13": o.C13, "C14": o.C14}
+	if !on[prop] {
+		return
+	}
 	w.viol = append(w.viol, violation{prop, clause, sig, fmt.Sprintf(format, a...)})
 }
 
